@@ -84,7 +84,8 @@ Definition chunk_rec (cm : chunk_meta) : mval :=
 
 Definition rg_rec (g : rg_meta) : mval :=
   MRec [ MArr (map chunk_rec (rg_chunks g)); I (rg_total_byte_size g); I (rg_num_rows g);
-         MInt 1; I (rg_file_offset g); MInt 1; I (rg_total_compressed g); MInt 1; I (rg_ordinal g) ].
+         MInt 1; I (rg_file_offset g); MInt 1; I (rg_total_compressed g);
+         MInt (match rg_ordinal g with Some _ => 1 | None => 0 end)%Z; I (match rg_ordinal g with Some n => n | None => 0%N end) ].
 
 Definition footer_record (m : file_meta) : list mval :=
   [ I (fm_version m);
@@ -162,7 +163,8 @@ Definition concrete_parse_footer (bs : list N) : res file_meta :=
       let group := fun (g : mval) =>
         let gr := as_rec g in
         mkrg (map chunk (combine (slot_arr gr 0) sch)) (nat_N (slot_int gr 2)) (nat_N (slot_int gr 1))
-             (nat_N (slot_int gr 4)) (nat_N (slot_int gr 6)) (nat_N (slot_int gr 8)) in
+             (nat_N (slot_int gr 4)) (nat_N (slot_int gr 6))
+             (if Z.eqb (slot_int gr 7) 0 then None else Some (nat_N (slot_int gr 8))) in
       Ok (mkfm (nat_N (slot_int r 0)) sch (nat_N (slot_int r 2)) (map group (slot_arr r 3)) (slot_bytes r 5))
   | Err e => Err e
   | Fault f => Fault f
